@@ -843,6 +843,111 @@ func runUnit(ctx *wctx, c *caseT, p int, ex lib.NamedExec, poison bool, cfg *tie
 	}
 }
 
+// denseOff is where the dense layout starts (behind the 64 sparse lane regions, inside the mapped window).
+const denseOff = 64*lib.MemStride + 128
+
+// denseUnit is oracle O5 for memory instructions (FLAT): the result does not depend on how the lanes' addresses
+// are laid out. The other oracles give every lane its own 256-byte region in a non-monotone order, which a
+// coalescing shortcut for the ordinary buf[tid] shape never sees. Here lane l accesses base + l*size (size = the
+// instruction's access size), the slot holds what lane l's sparse region held, and the outcome must be the
+// per-lane outcome of the sparse run: same VGPRs (address registers aside), same scalar state, the active lanes'
+// slots equal to what the sparse run left at their addresses, and no other byte of memory changed - in
+// particular not the slots of inactive lanes between two active ones (seed C06-7).
+func denseUnit(ctx *wctx, c *caseT, p int, ex lib.NamedExec, order int64) {
+	if c.Var.Alias || c.Kind != 2 || c.Op.Format != lib.FLAT {
+		return
+	}
+	st := ctx.st[2]
+	m := ctx.m[c.Op.Arch]
+	lib.Build(st.in, &c.Shape, p, ex.Mask, false)
+	ocS := m.Run(c.Inst, st.in, st.out)
+	if ocS.Panic != "" || len(ocS.Accesses) == 0 {
+		return
+	}
+	size := ocS.Accesses[0].Size
+	for _, a := range ocS.Accesses {
+		if a.Size != size {
+			return // not one access per lane
+		}
+	}
+	reg0, ok := lib.MemRegionOf(ocS.Accesses[0].Addr)
+	if !ok || size == 0 || size > 16 {
+		return
+	}
+	l0 := laneOfRegion(p, reg0)
+	delta := int64(ocS.Accesses[0].Addr) - int64(lib.MemAddr(p, l0)) // immediate offset of the variant
+	if delta < -2048 || delta > 2048 {
+		return
+	}
+	units.Add(1)
+	lo := int64(lib.MemWindowLo)
+	slot := func(l int) int64 { return int64(lib.MemBase) + denseOff + int64(size)*int64(l) + delta - lo }
+	sparse := func(l int) int64 { return int64(lib.MemAddr(p, l)) + delta - lo }
+	st.in2.CopyFrom(st.in)
+	for l := 0; l < 64; l++ {
+		copy(st.in2.Mem[slot(l):slot(l)+int64(size)], st.in.Mem[sparse(l):sparse(l)+int64(size)])
+		lib.SetLaneAddrTo(st.in2, &c.Shape, l, lib.MemBase+denseOff+size*uint64(l))
+	}
+	st.alt.CopyFrom(st.in2)
+	ocD := m.RunInPlace(c.Inst, st.in2)
+	runs.Add(2)
+	rc := replayCase{Pattern: p, Exec: hx(ex.Mask), Kind: "dense"}
+	pre := fmt.Sprintf("EXEC=%s pattern %s, lane l at base+%d*l: ", hx(ex.Mask), lib.PatternNames[p], size)
+	if ocD.Panic != "" {
+		fail(order, c, "dense-layout/handler-panic", pre+short(ocD.Panic), rc)
+		return
+	}
+	out := st.in2
+	if out.VCC != st.out.VCC || out.EXEC != st.out.EXEC || out.SCC != st.out.SCC || !bytes.Equal(out.S, st.out.S) {
+		fail(order, c, "dense-layout/scalar-state-differs", pre+"VCC/EXEC/SCC/SGPRs differ from the run with one region per lane", rc)
+		return
+	}
+	for l := 0; l < 64; l++ {
+		a, b := out.Lane(l), st.out.Lane(l)
+		for r := 0; r < lib.LaneBytes/4; r++ {
+			if r == lib.RegAddr || r == lib.RegAddr+1 {
+				continue
+			}
+			if !bytes.Equal(a[4*r:4*r+4], b[4*r:4*r+4]) {
+				fail(order, c, "dense-layout/vgpr-differs", fmt.Sprintf("%slane %d v%d = %#08x, with one region per lane (same memory contents) %#08x", pre, l, r, lib.V32(out, l, r), lib.V32(st.out, l, r)), rc)
+				return
+			}
+		}
+	}
+	owner := func(i int64) int {
+		j := i - slot(0)
+		if j < 0 || j >= 64*int64(size) {
+			return -1
+		}
+		return int(j / int64(size))
+	}
+	for i := range out.Mem {
+		if out.Mem[i] == st.alt.Mem[i] {
+			continue
+		}
+		l := owner(int64(i))
+		if l < 0 {
+			fail(order, c, "dense-layout/memory-outside-the-lanes-slots-changed", fmt.Sprintf("%sbyte at %#x changed %#02x -> %#02x", pre, uint64(lo+int64(i)), st.alt.Mem[i], out.Mem[i]), rc)
+			return
+		}
+		if ex.Mask>>uint(l)&1 == 0 {
+			fail(order, c, "dense-layout/inactive-lane-memory-written", fmt.Sprintf("%slane %d is inactive but byte %d of its element changed %#02x -> %#02x", pre, l, int64(i)-slot(l), st.alt.Mem[i], out.Mem[i]), rc)
+			return
+		}
+	}
+	for l := 0; l < 64; l++ {
+		if ex.Mask>>uint(l)&1 == 0 {
+			continue
+		}
+		got, want := out.Mem[slot(l):slot(l)+int64(size)], st.out.Mem[sparse(l):sparse(l)+int64(size)]
+		if !bytes.Equal(got, want) {
+			fail(order, c, "dense-layout/active-lane-memory-differs", fmt.Sprintf("%slane %d's element holds %x, with one region per lane %x", pre, l, got, want), rc)
+			return
+		}
+	}
+	_ = ocD
+}
+
 // scalarUnit is oracle O4 for one scalar case and pattern: the result must
 // not depend on EXEC and EXEC must not change.
 func scalarUnit(ctx *wctx, c *caseT, p int, execs []lib.NamedExec, order int64) {
@@ -1005,12 +1110,17 @@ func main() {
 		cfg.perms = pickPerms(allPerm, "swap(0,1)", "swap(17,18)", "swap(31,32)", "swap(62,63)", "rotate+1", "reverse", "swap-halves")
 		cfg.lanes = []int{0, 21, 31, 32, 63}
 	}
+	// EXEC masks of the dense-layout oracle: the alphabet of the tier plus masks with holes between active lanes
+	denseExecs := append(append([]lib.NamedExec{}, cfg.execs...), lib.NamedExec{Name: "one-hole", Mask: allLanes &^ (1 << 21)},
+		lib.NamedExec{Name: "two-far-apart", Mask: 1<<3 | 1<<60}, lib.NamedExec{Name: "ragged", Mask: 0x8001F0F30000C013},
+		lib.NamedExec{Name: "two-neighbours-of-a-hole", Mask: 1<<30 | 1<<32}, lib.NamedExec{Name: "every-fourth", Mask: 0x1111111111111111})
 	type unitT struct {
 		c      *caseT
 		p      int
 		e      int
 		poison bool
 		scalar bool
+		dense  bool
 	}
 	var work []unitT
 	nCases := 0
@@ -1022,6 +1132,11 @@ func main() {
 					work = append(work, unitT{c: c, p: p, e: e})
 					if c.Kind != 0 && cfg.execs[e].Mask != allLanes {
 						work = append(work, unitT{c: c, p: p, e: e, poison: true})
+					}
+				}
+				if c.Kind == 2 && c.Op.Format == lib.FLAT && !c.Var.Alias {
+					for e := range denseExecs {
+						work = append(work, unitT{c: c, p: p, e: e, dense: true})
 					}
 				}
 			}
@@ -1042,6 +1157,8 @@ func main() {
 		u := work[i]
 		if u.scalar {
 			scalarUnit(ctx, u.c, u.p, allExec, int64(i))
+		} else if u.dense {
+			denseUnit(ctx, u.c, u.p, denseExecs[u.e], int64(i))
 		} else {
 			runUnit(ctx, u.c, u.p, cfg.execs[u.e], u.poison, cfg, int64(i))
 		}
@@ -1296,8 +1413,10 @@ func replay(r *harness.Run, ctx *wctx, vd, sd *discovery) {
 			cfg.lanes = []int{rc.Lane}
 		case "scalar":
 			scalarUnit(ctx, c, rc.Pattern, []lib.NamedExec{{Name: "b", Mask: execB}}, 0)
+		case "dense":
+			denseUnit(ctx, c, rc.Pattern, lib.NamedExec{Name: "replay", Mask: exec}, 0)
 		}
-		if rc.Kind != "scalar" {
+		if rc.Kind != "scalar" && rc.Kind != "dense" {
 			runUnit(ctx, c, rc.Pattern, lib.NamedExec{Name: "replay", Mask: exec}, rc.Poison, cfg, 0)
 		}
 		var s []string
